@@ -7,9 +7,11 @@ From MomoCommon Require Import GenPrelude.
 From C19 Require Import Gen_UIntMath Gen_MemPoolConst Gen_RawPool.
 Local Open Scope Z_scope.
 
-Lemma requested_size_spec total : pvCreateRawMemPool total = Z.max total 8.
+(* the whole function: the pool is constructed with (max(totalSize, 8), alignment of the column list) *)
+Lemma requested_params_spec ts al cl :
+  pvCreateRawMemPool ts al cl = (Z.max (ts cl) 8, al cl, 0).
 Proof.
-  unfold pvCreateRawMemPool. destruct (Z.ltb_spec 8 total); simpl; lia.
+  unfold pvCreateRawMemPool. destruct (Z.ltb_spec 8 (ts cl)); simpl; repeat f_equal; lia.
 Qed.
 
 Lemma ceil_ge v m : 0 <= v -> 0 < m -> v + m < 2 ^ 64 -> v <= Ceil v m.
@@ -26,18 +28,19 @@ Qed.
 
 (* for EVERY column list (total size below 2^48 bytes), every alignment the pool accepts and every block count: the pool's
    block is at least as large as the row and at least as large as a pointer *)
-Theorem raw_block_holds_link_word total al C :
-  0 <= total < 2 ^ 48 -> 1 <= al <= 1024 ->
-  let block := CorrectBlockSize (pvCreateRawMemPool total) al C in
-  8 <= block /\ total <= block.
+Theorem raw_block_holds_link_word ts al cl C :
+  0 <= ts cl < 2 ^ 48 -> 1 <= al cl <= 1024 ->
+  let '(size, alignment, _) := pvCreateRawMemPool ts al cl in
+  let block := CorrectBlockSize size alignment C in
+  alignment = al cl /\ 8 <= block /\ ts cl <= block.
 Proof.
-  intros Ht Ha. rewrite requested_size_spec. cbv zeta. unfold CorrectBlockSize.
+  intros Ht Ha. rewrite requested_params_spec. cbv zeta. split; [reflexivity|]. unfold CorrectBlockSize.
   assert (P : 2 ^ 48 < 2 ^ 64) by (apply Z.pow_lt_mono_r; lia).
   destruct (Z.eqb_spec C 1).
-  - destruct (Z.gtb_spec (Z.max total 8) 0); lia.
-  - destruct (Z.leb_spec (Z.max total 8) al).
+  - destruct (Z.gtb_spec (Z.max (ts cl) 8) 0); lia.
+  - destruct (Z.leb_spec (Z.max (ts cl) 8) (al cl)).
     + rewrite wrapU_small by lia. lia.
-    + pose proof (ceil_ge (Z.max total 8) al ltac:(lia) ltac:(lia) ltac:(lia)). lia.
+    + pose proof (ceil_ge (Z.max (ts cl) 8) (al cl) ltac:(lia) ltac:(lia) ltac:(lia)). lia.
 Qed.
 
 (* wave-2 seed C19-d / mutant M10 drop the max: then a one-byte row gets a block that cannot hold the link word *)
